@@ -28,7 +28,7 @@ def _mean_curve(amp, mask, dist):
     return stats.mean(rows, dist, axis=0)
 
 
-def run(freq, amp, peak_f, mask, n, max_iterations, dist_fn, dist_mc, search_range):
+def run(freq, amp, peak_f, mask, n, max_iterations, dist_fn, dist_mc, search_range, quantities=None):
     freq = np.asarray(freq, float)
     amp = np.asarray(amp, float)
     peak_f = np.asarray(peak_f, float)
@@ -124,6 +124,10 @@ def run(freq, amp, peak_f, mask, n, max_iterations, dist_fn, dist_mc, search_ran
             return mask, it, status, trace
         mean_a, std_a = after
         d_after = abs(mean_a - pk_a)
+        if quantities is not None:        # what the published algorithm looks at in this iteration (for the DEBUG-trace seam)
+            quantities.append({"mean_fn_before": float(mean_b), "std_fn_before": float(std_b), "mc_peak_frq_before": float(pk_b),
+                               "mean_fn_after": float(mean_a), "std_fn_after": float(std_a), "mc_peak_frq_after": float(pk_a),
+                               "status": status})
         scale = max(abs(mean_b), abs(pk_b), 1e-300)
         for q in (diff_b / scale, std_b, std_a):
             if q <= ZERO and not (exact and q == 0):
